@@ -19,8 +19,8 @@ ASSUMPTIONS = [
     'transitions are observed through ENTERED_STATE callbacks while the process is open and through state sampling after every loop callback afterwards',
 ]
 BUDGET = {
-    'quick': {'enum': ['k1', 'k2', 'hooks', 'wc'], 'hyp': 4000, 'shards': 8},
-    'thorough': {'enum': ['k1', 'k2', 'k3', 'k4w', 'hooks', 'wc'], 'hyp': 160000, 'shards': 16},
+    'quick': {'enum': ['k1', 'k2', 'hooks', 'wc', 'tasks'], 'hyp': 4000, 'shards': 8},
+    'thorough': {'enum': ['k1', 'k2', 'k3', 'k4w', 'hooks', 'wc', 'tasks'], 'hyp': 160000, 'shards': 16},
 }
 
 ALPHABET = [['pause', 'p'], ['play'], ['kill', 'kt'], ['resume', 1], ['fail', 'f']]
@@ -43,6 +43,17 @@ LATE3 = {'steps': [gen.S([['soon', 'raise', 'l3']], ['wait', 1, None, None]), ge
 
 
 def enumerate_cases(tier, scope):
+    if scope == 'tasks':
+        # the caller cancels the task that steps the process (a timeout) and may step it again later
+        alpha = [['pause', 'p'], ['play'], ['kill', 'kt'], ['fail', 'f'], ['cancel_task'], ['restep']]
+        for name in ('async2', 'wait1', 'chain', 'gated'):
+            for k in (2, 3):
+                for sched in gen.schedules(alpha, k, 2):
+                    if not any(ev[0] == 'cancel_task' for ev in sched):
+                        continue
+                    for raising in (None, 1):
+                        yield {'program': gen.CATALOGUE[name], 'schedule': sched, 'cleanup_raises': raising, 'tag': f'tasks:{name}'}
+        return
     if scope == 'k4w':
         for name in ('wait1', 'waitwait', 'async2', 'late3'):
             prog = {'late3': LATE3}.get(name) or gen.CATALOGUE[name]
@@ -78,10 +89,12 @@ def enumerate_cases(tier, scope):
 @st.composite
 def _cases(draw, tier):
     prog = draw(gen.programs(max_steps=4 if tier == 'quick' else 6, self_calls=(), soon=True))
-    sched = draw(gen.control_schedules(['pause', 'play', 'kill', 'resume', 'fail', 'open'], max_events=4, max_gap=4))
+    sched = draw(gen.control_schedules(['pause', 'play', 'kill', 'resume', 'fail', 'open', 'cancel_task', 'restep'], max_events=5, max_gap=4))
     case = {'program': prog, 'schedule': sched}
     if draw(st.integers(0, 2)) == 0:
         case['hooks'] = draw(gen.hook_plans(['kill', 'pause', 'play', 'fail']))
+    if draw(st.integers(0, 2)) == 0:
+        case['cleanup_raises'] = draw(st.integers(0, 2))
     return case
 
 
@@ -100,6 +113,7 @@ def execute(case):
         ex.start()
         first_state = ex.samples[0][1]
         ex.run_schedule()
+        ex.event(['restep'])
         ex.settle(play=True, resumes=None if 'outline' in case else [1, 2, 3, 4, 5, 6], open_gates=True)
         n_before_pm = len(ex.samples)
         terminated_before_pm = ex.proc.has_terminated()
